@@ -27,6 +27,12 @@ type Config struct {
 	HarnessFiles  map[string]bool
 	MaxWitness    int
 	BudgetViolation bool
+	SolverTimeoutMs int
+	SolverKind      string
+	SolverFallback  bool
+	MaxTimerFires int
+	ConcreteClock bool // time.Now does not let time pass; the clock stays concrete
+	ManualTimers  bool // timers fire only when the harness calls vrt.RunTimer (synchronously)
 }
 
 type Stats struct {
@@ -138,7 +144,15 @@ type ctlUnwind struct{}
 
 func NewEngine(prog *ssa.Program, cfg Config) (*Engine, error) {
 	tb := NewTB()
-	sol, err := NewSolver(tb, "z3", 60000)
+	to := 60000
+	if cfg.SolverTimeoutMs > 0 {
+		to = cfg.SolverTimeoutMs
+	}
+	kind := "z3"
+	if cfg.SolverKind != "" {
+		kind = cfg.SolverKind
+	}
+	sol, err := NewSolver(tb, kind, to)
 	if err != nil {
 		return nil, err
 	}
@@ -157,9 +171,13 @@ func NewEngine(prog *ssa.Program, cfg Config) (*Engine, error) {
 	if e.Cfg.SpinCut == 0 {
 		e.Cfg.SpinCut = 3
 	}
+	if e.Cfg.MaxTimerFires == 0 {
+		e.Cfg.MaxTimerFires = 3
+	}
 	if e.Cfg.MaxViolations == 0 {
 		e.Cfg.MaxViolations = 8
 	}
+	sol.Fallback = cfg.SolverFallback
 	e.initStubs()
 	return e, nil
 }
